@@ -228,6 +228,41 @@ def task(item):
     return out
 
 
+# ---- pool call histories ---------------------------------------------------------------------------------
+def pool_history_task(item):
+    """Successive pool calls on ONE estimator with the SAME element list object and DIFFERENT residuals (fork-faithful virtual
+    pool): every call must equal the serial evaluation of the residual it was given."""
+    from mc import vpool
+    cfgname, h = item
+    cfg = CFGS[cfgname]
+    g = curve(cfg[1])
+    L = float(g.gamma_length)
+    m = build(cfg, h)
+    elems = list(m.leaf_elements)
+    est = ErrorEstimator(m, N_poly=5)
+    ctl = vpool.install()
+    fam = [OS.BYNAME['t'], OS.BYNAME['exp(X1)'], OS.family_for(L)[-1], OS.BYNAME['sin(2*X2)*t']]
+    out = {'n': 0, 'viols': []}
+    # one window around the whole history: pools that the code keeps alive between calls stay alive (a correct implementation
+    # may do that); they are reaped only at the end
+    with ctl.window():
+        for cpu in (1, 3):
+            ctl.configure(cpu=cpu, assign=None)
+            for res in fam:
+                for fn in ('estimate_weighted_l2', 'estimate_sobolev'):
+                    out['n'] += 1
+                    try:
+                        got = getattr(est, fn)(elems, res.fun, use_mp=True)
+                        want = getattr(ErrorEstimator(m, N_poly=5), fn)(elems, res.fun, use_mp=False)
+                        bad = not np.array_equal(np.asarray(got), np.asarray(want))
+                        detail = 'pool result differs from the serial evaluation of the same residual'
+                    except Exception as ex:
+                        bad, detail = True, 'raised {!r}'.format(ex)
+                    if bad and len(out['viols']) < 3:
+                        out['viols'].append(('pool-call-history', {'cfg': cfgname, 'history': h, 'fn': fn, 'residual': res.name, 'cpu': cpu, 'detail': detail}))
+    return out
+
+
 # ---- rigid symmetries ----------------------------------------------------------------------------------
 def rot_history(cfgname, h, shift, L):
     out = []
@@ -327,16 +362,23 @@ def run(ctx):
         ns += r['n']
         for tag, v in r['viols']:
             ctx.violation({'tag': tag, 'curve': CFGS[v['cfg']][1]}, '{}: {}'.format(tag, v), dict(v, tag=tag))
+    pitems = [(c, ()) for c in GRAPHS[ctx.tier]]
+    resP = pmap(pool_history_task, pitems, ctx.jobs, chunksize=1)
+    npool = 0
+    for r in resP:
+        npool += r['n']
+        for tag, v in r['viols']:
+            ctx.violation({'tag': tag, 'curve': CFGS[v['cfg']][1], 'fn': v['fn']}, '{}: {}'.format(tag, v), dict(v, tag=tag))
     need = ['space|straight|poly', 'space|corner|smooth', 'space|seam|smooth', 'space|curved|smooth', 'time|straight|poly', 'time|curved|smooth', 'l2|straight|poly']
     missing = [c for c in need if c not in classes]
     if missing or not ns:
         raise common.HarnessError('vacuity guard C09: missing {} symmetry {}'.format(missing, ns))
-    cov = {'evaluations': n + ns, 'distinct_nontrivial': n + ns,
+    cov = {'evaluations': n + ns + npool, 'distinct_nontrivial': n + ns + npool,
            'rule': 'one case = (mesh state, element, residual, order, patch) whose class/order combination carries a tolerance in the property; '
                    'plus (mesh, element) pairs of the shortcut and symmetry clauses; distinct by construction',
            'per_graph': per, 'neighbour_set_checks': nb,
            'class_count_and_worst_relative_error': {k: [v[0], float('%.3g' % v[1])] for k, v in sorted(classes.items())},
-           'symmetry_element_checks': ns, 'orders': list(POLY_ORDERS), 'residual_family': [r.name for r in OS.FAMILY] + ['cos(k*xh)+t*sin(2k*xh), k=2pi/L (x_hat-dependent, continuous across the seam)'],
+           'symmetry_element_checks': ns, 'pool_history_calls': npool, 'orders': list(POLY_ORDERS), 'residual_family': [r.name for r in OS.FAMILY] + ['cos(k*xh)+t*sin(2k*xh), k=2pi/L (x_hat-dependent, continuous across the seam)'],
            'samples': [{'cfg': items[0][0], 'history': list(items[0][1]), 'residual': 't*x', 'order': 5},
                        {'cfg': items[-1][0], 'history': list(items[-1][1]), 'residual': 'exp(X1)', 'order': 17}],
            'exhaustive': True}
@@ -348,6 +390,10 @@ def replay(ctx, data):
     r = task((data['cfg'], tuple((tuple(rr), ax) for rr, ax in data['history'])))
     for v in r['viols']:
         print(v)
+    if data.get('tag') == 'pool-call-history':
+        r3 = pool_history_task((data['cfg'], tuple((tuple(rr), ax) for rr, ax in data['history'])))
+        print(r3['viols'])
+        return not r3['viols']
     if data.get('tag', '').startswith('symmetry-'):
         r2 = symmetry_task((data['cfg'], tuple((tuple(rr), ax) for rr, ax in data['history'])))
         print(r2['viols'])
